@@ -208,11 +208,18 @@ fn ser_named_type(ty: &OwnedDataModelType, value: &Value, out: &mut Vec<u8>) -> 
                 ser_named_type(ty, value, out)?;
             }
         }
-        OwnedDataModelType::Unit => {}
-        OwnedDataModelType::Struct {
+        OwnedDataModelType::Unit
+        | OwnedDataModelType::Struct {
             name: _,
             data: OwnedData::Unit,
-        } => {}
+        } => {
+            // A unit value is JSON null. Accepting anything else here would make
+            // `Option<()>` encode a non-null value as `Some(())`, which decodes to
+            // null and re-encodes as `None`.
+            if !value.is_null() {
+                return Err(Error::SchemaMismatch);
+            }
+        }
         OwnedDataModelType::Struct {
             name: _,
             data: OwnedData::Newtype(ty),
